@@ -58,7 +58,12 @@ func (g *Gen) refFacts(v Term, t types.Type, bound Term, depth int) []Term {
 	t = types.Unalias(t)
 	var out []Term
 	switch tt := t.Underlying().(type) {
-	case *types.Pointer, *types.Map, *types.Chan:
+	case *types.Map:
+		// maps of different Go types are different objects: references carry their map type (the map
+		// length heap is shared by all map types, so this keeps them apart)
+		g.u.declareFun("mtype", []Sort{SInt}, SInt)
+		out = append(out, and(le(tZero, v), lt(v, bound)), or(eq(v, tZero), eq(mk(SInt, "mtype", v), g.u.typeID(tt))))
+	case *types.Pointer, *types.Chan:
 		out = append(out, and(le(tZero, v), lt(v, bound)))
 	case *types.Slice:
 		out = append(out, and(le(tZero, sBase(v)), lt(sBase(v), bound)))
